@@ -11,13 +11,17 @@
                              client->server writes may start failing at any moment (WrFail)
 
    One action per critical section.  Mechanisms are CONSTANTS (ablations show the invariants can fail):
-     AtomicNextId, SendLock, DeleteOnGet, HijackOnBroadcast, RefuseAfterClosed, SendErrDelivered        *)
+     AtomicNextId, SendLock, DeleteOnGet, HijackOnBroadcast, RefuseAfterClosed, SendErrDelivered,
+     ChanCap1, KeepSlotOnCancel (context cancellation: clientConn.sendPacket's select on ctx.Done())   *)
 EXTENDS Integers, Sequences, FiniteSets, TLC
 
 CONSTANTS Callers,            \* set of caller goroutines (one request each)
           TwoWrites,          \* callers whose packet is written as header + payload (WRITE, OPEN, SETSTAT ...)
           AtomicNextId, SendLock, DeleteOnGet, HijackOnBroadcast, RefuseAfterClosed, SendErrDelivered,
-          AllowRdFail, AllowWrFail
+          AllowRdFail, AllowWrFail,
+          AllowCancel,        \* callers may give up waiting (context cancelled) while their request is outstanding
+          ChanCap1,           \* result channels have capacity >= 1 (sendPacket replaces an unbuffered channel)
+          KeepSlotOnCancel    \* a cancelled call leaves its in-flight slot registered until the reply arrives
 
 VARIABLES pc,        \* caller -> "start"|"gotid"|"registered"|"hdr"|"sent"|"done"
           tmpid,     \* caller -> value read from nextid (non-atomic ablation)
@@ -54,7 +58,9 @@ Put(f, k, v) == [x \in Dom(f) \cup {k} |-> IF x = k THEN v ELSE f[x]]
 Del(f, k) == [x \in Dom(f) \ {k} |-> f[x]]
 
 (* ch <- res : possible only while the buffer (capacity 1) has room *)
-CanSend(ch) == IF ch = "dummy" THEN TRUE ELSE Len(chanBuf[ch]) < 1
+CanSend(ch) == IF ch = "dummy" THEN TRUE
+               ELSE IF ChanCap1 THEN Len(chanBuf[ch]) < 1
+               ELSE Len(chanBuf[ch]) < 1 /\ pc[ch] = "sent"      \* unbuffered (ablation): only a rendezvous with the waiting owner
 Send(ch, res) ==
   IF ch = "dummy" THEN UNCHANGED <<chanBuf, delivered>>
   ELSE /\ chanBuf' = [chanBuf EXCEPT ![ch] = Append(@, res)]
@@ -139,6 +145,16 @@ Wait(c) ==
   /\ pc' = [pc EXCEPT ![c] = "done"]
   /\ UNCHANGED <<tmpid, id, nextid, inflight, delivered, wlock, wire, srvSeen, s2c, rd, wr, recvPc, closed, bcastTodo>>
 
+(* case <-ctx.Done(): the caller stops waiting; its slot stays in `inflight` (the reply, when it comes, is dropped into
+   the buffered channel nobody reads any more) *)
+Cancel(c) ==
+  /\ AllowCancel /\ pc[c] = "sent" /\ result[c].k = "none"
+  /\ result' = [result EXCEPT ![c] = R("ctx", 0)]
+  /\ pc' = [pc EXCEPT ![c] = "done"]
+  /\ recvPc # "bcast" \/ KeepSlotOnCancel
+  /\ inflight' = IF ~KeepSlotOnCancel /\ id[c] \in Dom(inflight) /\ inflight[id[c]] = c THEN Del(inflight, id[c]) ELSE inflight
+  /\ UNCHANGED <<tmpid, id, nextid, chanBuf, delivered, wlock, wire, srvSeen, s2c, rd, wr, recvPc, closed, bcastTodo>>
+
 (* ---- peer ---- *)
 
 SrvReply(i) ==
@@ -205,7 +221,7 @@ Quiet == AllDone /\ UNCHANGED vars
 
 Next ==
   \/ \E c \in Callers : NextIdAtomic(c) \/ NextIdRead(c) \/ NextIdWrite(c) \/ PutChannel(c) \/ SendHdr(c) \/ SendPayload(c)
-                        \/ Unlock(c) \/ SendFails(c) \/ Wait(c)
+                        \/ Unlock(c) \/ SendFails(c) \/ Wait(c) \/ Cancel(c)
   \/ \E i \in srvSeen : SrvReply(i)
   \/ RdFail \/ WrFail \/ RecvDeliver \/ RecvErr \/ RecvCloseWriter \/ BcastOne \/ BcastDone
   \/ Quiet
@@ -229,6 +245,10 @@ Inv_C04_NotifiedOnce == \A c \in Callers : delivered[c] <= 1
 
 (* C04: a complete reply that was received before the failure is kept: checked as "a caller never gets an
    error after its reply was delivered" - implied by NotifiedOnce + Wait taking the head *)
+
+(* C03 under cancellation: a cancelled call never takes the connection down for the others: the receiver leaves its loop
+   only because the transport failed (with DeleteOnGet every id is answered once, so "sid not found" cannot happen) *)
+Inv_C03_NoSpuriousTeardown == (DeleteOnGet /\ recvPc # "run") => rd = "failed"
 
 (* C04 liveness: every call returns (TLC deadlock check covers blocked states; this is the fair version) *)
 Live_AllReturn == <>AllDone
